@@ -100,7 +100,8 @@ func init() {
 		select {
 		case r := <-done:
 			return r
-		case <-time.After(20 * time.Second):
+		case <-time.After(map[bool]time.Duration{false: 20 * time.Second, true: 3 * time.Second}[hangsSeen >= 2]):
+			hangsSeen++
 			return map[string]any{"res": "hang"}
 		}
 	}})
